@@ -101,6 +101,25 @@ theorem rcv_max_stream_data_over_limit {s : State} {id n : Nat} (hr : sidInitiat
     s.receivedMaxStreamData id n = some (s, some .streamLimit) :=
   receivedMaxStreamData_over_limit hr hd hi
 
+/-- a STREAM frame beyond the advertised stream limit is FLOW_CONTROL_ERROR and changes nothing in EVERY
+    state of a receiving half — open or STOPPED by the application (no hypothesis on `stopped`), with or
+    without a known final size (as long as the frame does not also break the final size) -/
+theorem rcv_stream_beyond_limit_any_half {s : State} {id off len : Nat} {fin : Bool} {rs : Recv}
+    (hv : s.validateReceiveId id = none) (hf : s.recv.find? id = some (some rs)) (hrcv : rs.isReceiving = true)
+    (hb : off + len < 2 ^ 62) (hc : ¬ rs.finalSizeConflict (off + len) fin)
+    (hover : off + len > rs.sentMaxStreamData) :
+    s.received id off len fin = some (s, .error (.flowControl "")) := by
+  have hing : rs.ingest off len fin s.dataRecvd s.localMaxData = some (.error (.flowControl "")) := by
+    have hfe : rs.finalSizeErr (off + len) fin = false := by
+      cases h : rs.finalSizeErr (off + len) fin
+      · rfl
+      · exact absurd ((finalSizeErr_iff _ _ _).mp h) hc
+    unfold Recv.ingest Recv.ingestTail Recv.creditConsumedBy
+    simp only [Gen.ingestEndBound, Gen.creditOverStream, hfe]
+    have h1 : ¬ (off + len ≥ 2 ^ 62) := by omega
+    simp [h1, hover]
+  exact (received_follows_ingest hv hf hrcv).mpr ⟨rfl, hing⟩
+
 /-- the connection-level entry point reports exactly the verdict of the stream's `ingest` -/
 theorem rcv_received_follows_ingest {s s' : State} {id off len : Nat} {fin : Bool} {rs : Recv} {e : TErr}
     (hv : s.validateReceiveId id = none) (hf : s.recv.find? id = some (some rs)) (hrcv : rs.isReceiving = true) :
@@ -241,6 +260,21 @@ theorem rcv_regression_duplicate_reset :
       (runR s0 0 16 [.params ⟨100, 100, 100, 2, 2, 1000⟩, .recvWindow 0, .rst 0 1 9]).bind fun r1 =>
         (step r1.1 (.rst 0 1 9)).map fun r2 => (r2.2, decide (r2.1 = r1.1), r1.1.dataRecvd, r1.1.localMaxData)) =
       some (.okFlag false, true, 9, 16) := by decide
+
+/-- MAX_STREAMS announcement threshold (`queue_max_stream_id`): a raise of the peer-stream limit is
+    announced once it reaches an eighth of the concurrency limit, and every raise when the limit is
+    below 16 (audit SD-24: with `>` a raise by one was never announced for limits 8 to 15, nor two
+    freed streams out of 16, and the peer could not open the streams it was entitled to) -/
+theorem max_streams_raise_announced {diff count : Nat} (h1 : 0 < diff) (h2 : count / 8 ≤ diff) :
+    Gen.maxStreamsSignificant diff count = true :=
+  maxStreamsSignificant_of h1 h2
+
+theorem max_streams_small_limits_always_announced {diff count : Nat} (h1 : 0 < diff) (hc : count < 16) :
+    Gen.maxStreamsSignificant diff count = true :=
+  maxStreamsSignificant_of h1 (by omega)
+
+example : Gen.maxStreamsSignificant 1 9 = true ∧ Gen.maxStreamsSignificant 2 16 = true ∧
+    Gen.maxStreamsSignificant 0 4 = false ∧ Gen.maxStreamsSignificant 3 32 = false := by decide
 
 /-! ### peer-initiated streams stay within the advertised count -/
 
